@@ -188,22 +188,29 @@ theorem out_promotion :
 section values
 variable {K : Type} [Lean.Grind.Field K] [BEq K] (A : NumOps K)
 
-/-- copy route on integer data: the stored integer is embedded, multiplied by the factor as a
-    float (the dtype `m` of `int_array * python_float`), and only then cast to the result float
-    type — no integer arithmetic, no truncation step -/
+/-- (model structure, true by unfolding `copyValue`: it records how the hand-written value path is
+    built, it is not derived from the code — what ties `copyValue` to `in_units` is the bit-for-bit
+    correspondence of `c17.value copy` with the library at binary16/32/64, and on the equivalence
+    routes the recorded ufunc chains of `C17Chains`.)  Copy route on integer data: the stored integer
+    is embedded, multiplied by the factor as a float (the dtype `m` of `int_array * python_float`),
+    and only then cast to the result float type — no integer arithmetic, no truncation step -/
 theorem value_is_float_product_copy (m new : Dtype) (hm : m.kind ≠ .c) (hn : new.kind ≠ .c)
     (n : Int) (f : K) :
     copyValue A m new (.int n) f none
       = .real (A.cast new (A.cast m (A.cast m (A.ofInt n) * A.cast m f))) := by
   simp [copyValue, castElem, mulIn, offsetTruthy, hm, hn]
 
-/-- in-place route on integer data: cast to the new float type, then a float multiplication -/
+/-- (model structure, by unfolding; tied to `convert_to_units` by the bit-exact correspondence
+    `c17.value inplace`.)  In-place route on integer data: cast to the new float type, then a float
+    multiplication -/
 theorem value_is_float_product_inplace (new : Dtype) (hn : new.kind ≠ .c) (n : Int) (f : K) :
     inplaceValue A new (.int n) f none
       = .real (A.cast new (A.cast new (A.cast new (A.ofInt n)) * A.cast new f)) := by
   simp [inplaceValue, castElem, mulIn, offsetTruthy, hn]
 
-/-- binary ufunc, integer second operand: cast to the float type, then a float multiplication -/
+/-- (model structure, by unfolding; tied to `__array_ufunc__` by the bit-exact correspondence
+    `c17.value binop`.)  Binary ufunc, integer second operand: cast to the float type, then a float
+    multiplication -/
 theorem value_is_float_product_binary (new : Dtype) (hn : new.kind ≠ .c) (n : Int) (f : K) :
     binaryOperandValue A new (.int n) f
       = .real (A.cast new (A.cast new (A.cast new (A.ofInt n)) * A.cast new f)) := by
@@ -323,6 +330,46 @@ theorem warn_only_when_large :
     rw [hm] at h2
     have := C17L.ge_of_largeWarns P 8 (2 ^ 53 + 1) hs (by decide +kernel) d v h2
     rw [h8]; exact this
+
+/-- the same for arrays (`np.any`): an array containing at least one 32/64-bit integer that the float
+    of its item size cannot hold makes `to`/`in_units`, `convert_to_units` and `in_base` warn -/
+theorem warn_large_integers_array :
+    ∀ d ∈ scope, d.isInt = true → (d.size = 4 ∨ d.size = 8) → ∀ (vs : List Int) (v : Int), v ∈ vs →
+      tooLarge d.size v = true →
+        inUnitsWarns P d vs = true ∧ convertToUnitsWarns P d vs = true
+        ∧ routeWarns P .inBase d vs = true := by
+  intro d hd hint hsz vs v hv ht
+  obtain ⟨h1, h2, h3⟩ := warn_large_integers d hd hint hsz v ht
+  have hib : P.inBaseItemSize = true := by decide
+  have lift : ∀ s, largeWarns P s d [v] = true → largeWarns P s d vs = true :=
+    fun s h => C17L.largeWarns_of_mem P s d vs v hv h
+  refine ⟨?_, ?_, ?_⟩
+  · unfold inUnitsWarns at h1 ⊢
+    simp only [Bool.and_eq_true] at h1 ⊢
+    exact ⟨h1.1, lift _ h1.2⟩
+  · unfold convertToUnitsWarns at h2 ⊢
+    simp only [Bool.and_eq_true] at h2 ⊢
+    exact ⟨h2.1, lift _ h2.2⟩
+  · simp only [routeWarns, hib, Bool.true_and] at h3 ⊢
+    unfold inUnitsWarns at h3 ⊢
+    simp only [Bool.and_eq_true] at h3 ⊢
+    exact ⟨h3.1, lift _ h3.2⟩
+
+/-- no spurious warning on arrays: if `to`/`in_units` warns, some element exceeds `2^p` -/
+theorem warn_only_when_large_array :
+    ∀ d : Dtype, (d.size = 4 ∨ d.size = 8) → ∀ vs : List Int,
+      inUnitsWarns P d vs = true → ∃ v ∈ vs, 2 ^ precision d.size < v.natAbs := by
+  intro d hsz vs h
+  unfold inUnitsWarns at h
+  simp only [Bool.and_eq_true] at h
+  obtain ⟨v, hv, hw⟩ := C17L.exists_of_largeWarns P _ d vs h.2
+  refine ⟨v, hv, warn_only_when_large d hsz v ?_⟩
+  unfold inUnitsWarns
+  simp only [Bool.and_eq_true]
+  exact ⟨h.1, hw⟩
+
+example : (⟨.u, 4⟩ : Dtype) ∈ scope ∧ (16777219 : Int) ∈ [1, 16777219, 5] ∧ tooLarge 4 16777219 = true := by
+  decide +kernel
 
 /-- small integers need no warning: every 8-bit value fits binary16 -/
 theorem one_byte_integers_fit : ∀ v : Int, v.natAbs ≤ 256 → tooLarge 2 v = false := by
